@@ -110,6 +110,7 @@ type behaviourIn struct {
 	ClientOf map[string]string  `json:"clientOf"`
 	Skip     []int              `json:"skip"`
 	Disk0    bool               `json:"disk0"` // the cache starts with every complete tile of timeline A
+	Lookups0 []int              `json:"lookups0"` // keys whose lookup files are in the cache from the start (honest, under the head served at the start)
 	Ops      []histOp           `json:"ops"`
 }
 
@@ -759,6 +760,9 @@ func replayBehaviour(c *core.Case, in *behaviourIn) ([]core.Violation, bool) {
 	ops := newScriptOps(w, in.Cfg0, in.Served)
 	if in.Disk0 {
 		ops.fillDiskWithFullTiles()
+	}
+	for _, k := range in.Lookups0 {
+		ops.disk[absFile{Kind: "lookup", K: k}.String()] = w.LookupResp(sumworld.RecLabel{Kind: "true", Tl: "A", ID: k}, sumworld.HeadLabel{Kind: "good", Tl: "A", N: in.Served["A"]})
 	}
 	nfault := 0
 	nwc := 0
